@@ -198,6 +198,7 @@ func (wt *waitTable) unblock(name string, elements int) {
 			ws := ref.signal
 			wt.unlinkWakeSignal(ws)
 			ws.ready <- struct{}{}
+			verifPoint("wake-sent", 0, ws.id)
 		}
 	}
 }
